@@ -172,25 +172,6 @@ V_LOGIC (__gmpn_nior_n, ~(V_A | V_Bb));
 V_LOGIC (__gmpn_xor_n,  V_A ^ V_Bb);
 V_LOGIC (__gmpn_xnor_n, ~(V_A ^ V_Bb));
 
-/* ---- popcount / hamdist: prefix sums.  g_pi / g_po: the count over limbs [0,gk) and [0,gk]  (ghost, linked like carries) */
-mp_bitcnt_t g_pi, g_po;
-mp_bitcnt_t __gmpn_popcount (mp_srcptr up, mp_size_t n)
-__CPROVER_requires (1 <= n && n <= V_NMAX && 0 <= gk && gk < n && V_R_OK (up, n))
-__CPROVER_assigns (g_pi, g_po)
-__CPROVER_ensures (g_po == g_pi + (mp_bitcnt_t) __builtin_popcountl (up[gk]))
-__CPROVER_ensures (gk == 0 ==> g_pi == 0)
-__CPROVER_ensures (gk == n - 1 ==> __CPROVER_return_value == g_po)
-__CPROVER_ensures (g_po <= 64 * (mp_bitcnt_t) (gk + 1) && __CPROVER_return_value <= 64 * (mp_bitcnt_t) n)
-;
-mp_bitcnt_t __gmpn_hamdist (mp_srcptr up, mp_srcptr vp, mp_size_t n)
-__CPROVER_requires (1 <= n && n <= V_NMAX && 0 <= gk && gk < n && V_R_OK (up, n) && V_R_OK (vp, n))
-__CPROVER_assigns (g_pi, g_po)
-__CPROVER_ensures (g_po == g_pi + (mp_bitcnt_t) __builtin_popcountl (up[gk] ^ vp[gk]))
-__CPROVER_ensures (gk == 0 ==> g_pi == 0)
-__CPROVER_ensures (gk == n - 1 ==> __CPROVER_return_value == g_po)
-__CPROVER_ensures (g_po <= 64 * (mp_bitcnt_t) (gk + 1) && __CPROVER_return_value <= 64 * (mp_bitcnt_t) n)
-;
-
 /* ---- scan0 / scan1: index of the first 0 / 1 bit at or after starting_bit.  The manual's precondition ("U must sooner or
    later have a limb with a clear/set bit") is given as a ghost INPUT g_hd: a limb index >= the starting limb that has such a
    bit.  Post: the returned bit r is >= starting_bit, bit r has the sought value, and (at ghost bit position gb) every bit in
